@@ -241,6 +241,18 @@ def explore(harness, params, fatal=None, deadline_s=300.0, validate=True,
                            sym_trace[k] if k < len(sym_trace) else None,
                            con_trace[k] if k < len(con_trace) else None, assignment))
                 res.validated += 1
+                # requirements that exist only in the concrete twin (type checks on emitted actions)
+                sym_tags = {f[0] for f in ctx.failures}
+                for ctag, cinfo in cctx.failures:
+                    if ctag in sym_tags:
+                        continue
+                    res.failures_total += 1
+                    if kept_per_tag.get(ctag, 0) < max_failures_kept:
+                        kept_per_tag[ctag] = kept_per_tag.get(ctag, 0) + 1
+                        res.failures.append({"tag": ctag, "inputs": _jsonable(assignment), "info": _jsonable(cinfo),
+                                             "reproduced": True, "concrete_failures": _jsonable(cctx.failures[:3]),
+                                             "params": _jsonable(params), "harness": name,
+                                             "concrete_trace_tail": _jsonable(con_trace[-25:])})
                 if len(res.samples) < 3 and (sample_every is None or res.paths % sample_every == 0):
                     res.samples.append({"inputs": _jsonable(assignment),
                                         "trace_head": _jsonable(con_trace[:12]),
